@@ -824,12 +824,16 @@ class Request(interfaces.Request, BaseUnicastRequest):
             if is_recent:
                 self.observation.callback(next_event.message)
 
+            # The application may cancel the observation from inside its
+            # callback; a cancelled observation takes no more events.
             if next_event.is_last:
-                self.observation.error(error.ObservationCancelled())
+                if not self.observation.cancelled:
+                    self.observation.error(error.ObservationCancelled())
                 return
 
             if not self._is_notification(next_event.message):
-                self.observation.error(error.ObservationCancelled())
+                if not self.observation.cancelled:
+                    self.observation.error(error.ObservationCancelled())
                 self.log.error(
                     "Pipe indicated more possible responses"
                     " while the Request handler would not know what to"
